@@ -2,7 +2,7 @@
    cfg ranges over all configurations (any number of nodes, addresses shared or empty, any groups with
    shared nodes), h over all finite histories of events (including reloads, suppression scopes). *)
 From Coq Require Import List NArith ZArith Bool.
-From Dae Require Import C16_Spec C16_Model C16_Proofs C16_ProofsHealth C16_ProofsEdges C16_ProofsFloor C16_ProofsGroups C16_ProofsGroupsReload C16_ProofsGroupsFinal.
+From Dae Require Import C16_Spec C16_Model C16_Proofs C16_ProofsHealth C16_ProofsEdges C16_ProofsFloor C16_ProofsGroups C16_ProofsGroupsReload C16_ProofsGroupsFinal C16_ProofsNoRevive.
 From Dae.gen Require Import C16_Consts.
 Import ListNotations.
 Open Scope N_scope.
@@ -109,6 +109,27 @@ Theorem C16_escalation_after_three_deaths :
           /\ m_tracker m' (c_addr cfg n) = s_deaths s (c_addr cfg n) + 1).
 Proof. exact C16_escalation_after_three_deaths_proof. Qed.
 Print Assumptions C16_escalation_after_three_deaths.
+
+(* only a success revives: after any history, a failure report of any kind (probe, transactional, traffic,
+   forced; counted or not; through whichever counter, whatever its streak) on any node and type never makes a
+   node that is not alive for a type alive for it *)
+Theorem C16_failure_never_revives :
+  forall cfg h n d k ign l n' d',
+    model_alive cfg h n' d' = false -> model_alive cfg (h ++ [EFail n d k ign l]) n' d' = false.
+Proof. exact C16_failure_never_revives_proof. Qed.
+Print Assumptions C16_failure_never_revives.
+
+(* the statement is false of the variant that stores "streak < threshold" instead of keeping the current state
+   below the threshold: a TCP type killed by a failed probe comes back on one traffic failure, with an
+   alive callback and the connectivity slot set *)
+Theorem C16_failure_never_revives_swap_refuted :
+  let h := [EFail 0 Tcp4 KCheck false []] in
+  model_alive wit_cfg1 h 0 Tcp4 = false
+  /\ d_alive (m_d (mark_unavail_swap wit_cfg1 (clear_logs (m_run wit_cfg1 h)) 0 Tcp4 true []) 0) Tcp4 = true
+  /\ m_tlog (mark_unavail_swap wit_cfg1 (clear_logs (m_run wit_cfg1 h)) 0 Tcp4 true []) = [(0, Tcp4, true)]
+  /\ m_bits (mark_unavail_swap wit_cfg1 (clear_logs (m_run wit_cfg1 h)) 0 Tcp4 true []) 0 Tcp4 = true.
+Proof. exact C16_failure_never_revives_swap_refuted_proof. Qed.
+Print Assumptions C16_failure_never_revives_swap_refuted.
 
 (* ---- callbacks fire exactly on flips, for every event of every history (reloads: relative to the fresh
    generation's all-alive dialers) ------------------------------------------------------------------- *)
